@@ -405,11 +405,90 @@ func c04(c *core.Ctx) {
 				key := core.FuncName(fn) + ":request-ctx"
 				req := call.Call.Args[0]
 				var bound ssa.Value
-				for _, o := range core.Origins(req) {
-					if wc, _, ok := core.CallResult(o); ok {
-						if core.InfoOf(&wc.Call).Is("net/http.Request.WithContext") {
-							bound = wc.Call.Args[1]
+				var boundIn *ssa.Function
+				var findBound func(v ssa.Value, depth int)
+				findBound = func(v ssa.Value, depth int) {
+					if depth > 3 || bound != nil {
+						return
+					}
+					for _, o := range core.Origins(v) {
+						if wc, _, ok := core.CallResult(o); ok {
+							wi := core.InfoOf(&wc.Call)
+							if wi.Is("net/http.Request.WithContext") {
+								bound, boundIn = wc.Call.Args[1], wc.Parent()
+								return
+							}
+							if wi.Is("net/http.NewRequestWithContext") {
+								bound, boundIn = wc.Call.Args[0], wc.Parent()
+								return
+							}
+							continue
 						}
+						// a request made elsewhere: handed in as a parameter, or kept in a field
+						if par, isPar := o.(*ssa.Parameter); isPar && !isEntryFunc(par.Parent()) {
+							for i, pp := range par.Parent().Params {
+								if pp != par {
+									continue
+								}
+								for _, g := range p.LibFuncs("httpgrpc") {
+									core.Instrs(g, func(x ssa.Instruction) {
+										if cc := core.CallOf(x); cc != nil && cc.StaticCallee() == par.Parent() {
+											if args := cc.Args; i < len(args) {
+												findBound(args[i], depth+1)
+											}
+										}
+									})
+								}
+							}
+						}
+						if ld, isLd := o.(*ssa.UnOp); isLd && ld.Op == token.MUL {
+							if fa, isFA := ld.X.(*ssa.FieldAddr); isFA {
+								fb, ff, _ := core.FieldOf(fa)
+								for _, g := range p.LibFuncs("httpgrpc") {
+									core.Instrs(g, func(x ssa.Instruction) {
+										if st, ok := x.(*ssa.Store); ok {
+											if b2, f2, isF := core.FieldOf(st.Addr); isF && f2 == ff && core.NamedOf(b2.Type()) == core.NamedOf(fb.Type()) {
+												findBound(st.Val, depth+1)
+											}
+										}
+									})
+								}
+							}
+						}
+					}
+				}
+				findBound(req, 0)
+				if bound != nil {
+					// a stream's exchange is bound to the stream's OWN context (the one its cancel function ends): the
+					// context bound is the one kept in (or read from) the stream's context field
+					for _, nt := range streamTypes(p, "ClientStream", "RecvMsg") {
+						if pkgSuffixOf(nt) != "httpgrpc" {
+							continue
+						}
+						tn := nt.Obj().Name()
+						concerns := core.RecvName(fn) == tn
+						core.Instrs(boundIn, func(x ssa.Instruction) {
+							if al, ok := x.(*ssa.Alloc); ok && core.NamedOf(core.Deref(al.Type())) == tn {
+								concerns = true
+							}
+						})
+						if !concerns {
+							continue
+						}
+						own := core.OriginIs(bound, func(o ssa.Value) bool {
+							base, _, isF := core.FieldOf(o)
+							return isF && core.NamedOf(base.Type()) == tn && core.TypeStr(o.Type()) == "context.Context"
+						})
+						if !own {
+							core.Instrs(boundIn, func(x ssa.Instruction) {
+								if st, ok := x.(*ssa.Store); ok {
+									if base, _, isF := core.FieldOf(st.Addr); isF && core.NamedOf(base.Type()) == tn && core.TypeStr(st.Val.Type()) == "context.Context" && (st.Val == bound || sameOrigins(st.Val, bound)) {
+										own = true
+									}
+								}
+							})
+						}
+						c.Check(own, key+":the-streams-own-context", call.Pos(), "the streaming request is bound to the context kept in the stream (the one the stream's cancel function ends)", "the streaming request is bound to a context other than the one the stream keeps (e.g. the caller's, taken before the stream derived its cancellable one): the stream's own cancel — the finalizer's, the receive side's when it fails the call — no longer ends the HTTP exchange")
 					}
 				}
 				if bound == nil {
@@ -741,6 +820,11 @@ func c04(c *core.Ctx) {
 	// client can send, the smallest included: the client never sends a value the server takes for "no timeout"
 	// (C09/R3: clamped to >= 1), and the server applies the deadline for every valid value (C09/R5).
 	c.Borrow("C09", map[string]string{"R3": "R7", "R5": "R8"}, c09)
+	// "ends with the right code": the code the return statement chose is the code returned (C02/R7: no goroutine of
+	// the call writes its result variable); and over HTTP the server notices a client that went away only once the
+	// request body has been read to its end, which for single-request methods the first receive does (C08/R3)
+	c.Borrow("C02", map[string]string{"R7": "R10"}, c02)
+	c.Borrow("C08", map[string]string{"R3": "R11"}, c08)
 
 }
 
